@@ -86,7 +86,7 @@ RECB := $(B)/rec
 REC_BIND_OBJS := $(patsubst $(GEN)/%.c,$(RECB)/%.o,$(BIND_SRCS))
 $(RECB)/bind_%.o: $(GEN)/bind_%.c bindings/bind.h $(REPO_HDRS) | dirs
 	@mkdir -p $(RECB)
-	$(CC) -std=gnu99 -O1 -g -fsanitize=address -I$(REPO)/include -Ibindings -w -c $< -o $@
+	$(CC) -std=gnu99 -O2 -g -fsanitize=address -I$(REPO)/include -Ibindings -w -c $< -o $@
 REC_SIM_SRCS := sim/task.cc sim/driver.cc sim/symtab.cc sim/cov.cc engines/rec/rec.cc
 REC_SIM_OBJS := $(patsubst %.cc,$(RECB)/sim/%.o,$(REC_SIM_SRCS))
 $(RECB)/sim/%.o: %.cc $(wildcard sim/*.h spec/*.h bindings/*.h) Makefile | dirs
@@ -123,7 +123,7 @@ $(REENTB)/marker_end.o: sim/marker_end.c | dirs
 	@mkdir -p $(REENTB)
 	$(CC) -O1 -c $< -o $@
 $(B)/reent_sim: $(REENTB)/marker_begin.o $(REENT_LIB_OBJS) $(REENTB)/marker_end.o $(REENT_BIND_OBJS) $(REENT_DRV_OBJS) $(REENT_SIM_OBJS)
-	$(CXX) -no-pie -Wl,--wrap=memcpy -Wl,--wrap=memset -Wl,--wrap=memmove -o $@ $(REENTB)/marker_begin.o $(REENT_LIB_OBJS) $(REENTB)/marker_end.o $(REENT_BIND_OBJS) $(REENT_DRV_OBJS) $(REENT_SIM_OBJS) -lm
+	$(CXX) -no-pie -Wl,--wrap=memcpy -Wl,--wrap=memset -Wl,--wrap=memmove $(foreach w,strtok rand srand localtime gmtime ctime asctime strerror setlocale,-Wl,--wrap=$(w)) -o $@ $(REENTB)/marker_begin.o $(REENT_LIB_OBJS) $(REENTB)/marker_end.o $(REENT_BIND_OBJS) $(REENT_DRV_OBJS) $(REENT_SIM_OBJS) -lm
 reent: $(B)/reent_sim
 
 dirs:
